@@ -172,10 +172,15 @@ NeverReplaceCompiled(log) == \A p \in Idx(log, "put") :
    GenOk(log, log[p].name) => \E g \in Idx(log, "gen") : log[g].name = log[p].name /\ log[g].text = log[p].text
 \* a requested name that failed / is missing is offered to the borrowers, noDeps or not
 RequestedStayEligible(req, log, proc, o, nbor, flavs, ended) == (ended = "return" /\ nbor > 0) =>
-   \A i \in DOMAIN req :
+   /\ \A i \in DOMAIN req :
       LET r == req[i] IN
       (/\ Yielded(log, r) = {}
        /\ ~\E s \in Idx(log, "sym") : log[s].name = r /\ log[s].ans = "ok"   \* r is not a module another file supplied
        /\ \E k \in 1..nbor : flavs[k] = o.genTexts) =>
           \E b \in Idx(log, "bor") : log[b].name = r
+   \* ... and so is a module that a requested file supplied (requested under its file name) and that failed in
+   \* code generation: it is "explicitly requested" although its canonical name differs from the name asked for
+   /\ \A m \in {log[g].name : g \in {j \in Idx(log, "gen") : log[j].ans # "ok"}} :
+         (Requested(req, log, m) /\ \E k \in 1..nbor : flavs[k] = o.genTexts) =>
+             \E b \in Idx(log, "bor") : log[b].name = m
 =============================================================================
